@@ -64,7 +64,7 @@ func checkUVRand(c uvCase) *vk.Failure {
 }
 
 func TestUVRand(t *testing.T) {
-	vk.Run(t, "uv-rand", vk.Opts{Quick: 2400, Thorough: 16000}, func(t *rapid.T) uvCase {
+	vk.Run(t, "uv-rand", vk.Opts{Quick: 6000, Thorough: 40000}, func(t *rapid.T) uvCase {
 		return drawUV(t, func(s *uvSpec) bool { return s.name != "Logistic" })
 	}, checkUVRand)
 }
@@ -197,7 +197,7 @@ func xsUnsorted(c asCase, a distuv.AlphaStable, i int) float64 {
 }
 
 func TestAlphaStable(t *testing.T) {
-	vk.Run(t, "alphastable", vk.Opts{Quick: 300, Thorough: 3000}, func(t *rapid.T) asCase {
+	vk.Run(t, "alphastable", vk.Opts{Quick: 600, Thorough: 4000}, func(t *rapid.T) asCase {
 		c := asCase{}
 		switch rapid.IntRange(0, 5).Draw(t, "acls") {
 		case 0:
